@@ -1,6 +1,7 @@
 """C16 - computations never mutate market data nor depend on call history.
 R1 in-place discipline (alias domain) over interpreted entry points + syntactic coverage of every in-place site;
-R2 single writer of BasePrimary._buffers; R3 purity of the computing entry points; R4 features are bound through .of()."""
+R2 single writer of BasePrimary._buffers; R3 purity of the computing entry points; R4 features are bound through .of().
+Added after the seeded-defect rounds: R3 also: state stored on the hedger (private attributes), in attribute-held containers or module-level containers; R1: what the model is handed must be fresh storage (every single built-in feature probed)."""
 import ast
 
 from .. import entrypoints as E
